@@ -176,7 +176,10 @@ JudgeLabwareOp(tr, T, ev) ==
     Cl("C16.base", viaWl /\ T.dev = "base" /\ valid /\ rout = "ok" /\ (\E i \in 1..Len(P.vs) : P.vs[i] > 0),
        ev.out # "ok" /\ PipRecs(ev.recs) = <<>>),
     Cl("C01.robot", viaWl /\ F.robot /\ live /\ ev.out = "ok",
-       LET rb == Run(T, vol, TrackedComp(tr), ev.recs) IN rb.err = "" /\ rb.vol = post.vol)
+       LET rb == Run(T, vol, TrackedComp(tr), ev.recs) IN rb.err = "" /\ rb.vol = post.vol),
+    \* a well id that does not exist in the labware: the call raises and no pipetting record is emitted
+    Cl("C08.badwell", P.ok /\ Len(P.ws) >= 1 /\ (\A i \in 1..Len(P.ws) : ~ValidWell(L.g, P.ws[i])),
+       ev.out # "ok" /\ PipRecs(ev.recs) = <<>>)
   }
 
 (***************************************************************************)
@@ -203,6 +206,10 @@ JudgeTransfer(tr, T, ev) ==
     Cl("C18.mode", T.dev # "base" /\ trp.ok /\ ~ValidMode(a.pby), ~ok /\ post.vol = vol /\ PipRecs(ev.recs) = <<>>),
     Cl("C16.base", T.dev = "base", ev.out = "compat" /\ post.vol = vol /\ ev.recs = <<>>),
     Cl("C04.transfer", T.dev # "base" /\ valid /\ ok, post.vol = ApplyTriples(T, a, x, vol)),
+    Cl("C08.badwell", T.dev # "base" /\ trp.ok /\ Len(x) >= 1 /\ ValidMode(a.pby)
+                      /\ ((\A i \in 1..Len(x) : ~ValidWell(T.lw[a.src].g, x[i].s)) \/ (\A i \in 1..Len(x) : ~ValidWell(T.lw[a.dst].g, x[i].d)))
+                      /\ (\A i \in 1..Len(x) : x[i].v > 0),
+       ~ok /\ PipRecs(ev.recs) = <<>>),
     Cl("C07.accept", T.dev # "base" /\ valid /\ sized /\ refok /\ ref.out = "ok", ok),
     Cl("C06.neverrefused", T.dev # "base" /\ valid /\ T.autosplit /\ refok /\ ref.out = "ok", ev.out # "invalidop"),
     Cl("C06.nosplit", T.dev # "base" /\ valid /\ ~sized /\ refok /\ ref.out = "invalidop", ev.out = "invalidop"),
@@ -262,6 +269,8 @@ JudgeDistribute(tr, T, ev) ==
     Cl("C16.base", T.dev = "base" /\ IsTrough(gs) /\ a.vol <= T.wlmax /\ DistributeValid(T, a), ~ok /\ rs = <<>>),
     Cl("C06.distsize", a.vol > T.wlmax /\ IsTrough(gs), ev.out = "invalidop" /\ ev.recs = <<>> /\ post.vol = vol),
     Cl("C09.notrough", ~IsTrough(gs), ~ok /\ ev.recs = <<>> /\ post.vol = vol),
+    Cl("C08.badwell", T.dev # "base" /\ IsTrough(gs) /\ n >= 1 /\ a.vol <= T.wlmax /\ (\A i \in 1..n : ~ValidWell(gd, ws[i])),
+       ~ok /\ rs = <<>>),
     Cl("C04.distribute", T.dev # "base" /\ valid /\ ok,
        post.vol = ref.S.vol),
     Cl("C04.accept", T.dev # "base" /\ valid /\ a.vol <= T.wlmax /\ ref.out = "ok", ok),
